@@ -223,6 +223,7 @@ func (nc *nodeCase) propose() {
 	// the reference node (source of reward tables for harness-made blocks) must know it too
 	nc.env.useOutsiderKey()
 	nc.ref.processBlock(b)
+	nc.ref.quiesce()
 	nc.env.useLocalKey()
 	name := nc.registerBlock(nc.nm.name(bestHash), b, 0, infos)
 	r := nc.deliver(name)
@@ -510,6 +511,7 @@ func (nc *nodeCase) proposeRaw(context string) *types.Block {
 		return nil
 	}
 	r := n.processBlock(blk)
+	n.quiesce()
 	if r.String() != "ok" {
 		nc.c.Fail("C38:proposed-block-rejected", fmt.Sprintf("%s: the node rejects the block (%d transactions) its own proposer built on %s: %v %s", context, len(blk.Transactions), bestName, r.err, r.panic))
 		return nil
